@@ -1075,7 +1075,12 @@ def path_to_tree_path(
     if isinstance(path, bytes):
         path = os.fsdecode(path)
     path = Path(path)
-    resolved_path = path.resolve()
+    # Resolve the directory the entry lives in, never the entry itself: a
+    # symbolic link is tracked under its own name, wherever it points.
+    if path.is_symlink():
+        resolved_path = path.parent.resolve() / path.name
+    else:
+        resolved_path = path.resolve()
 
     # Resolve and abspath seems to behave differently regarding symlinks,
     # as we are doing abspath on the file path, we need to do the same on
@@ -4060,6 +4065,17 @@ def _walk_working_dir_paths(
     # Convert paths to strings for os.walk compatibility
 
     for dirpath, dirnames, filenames in os.walk(frompath):  # type: ignore[type-var]
+        # os.walk lists a symbolic link to a directory among the directories
+        # (and does not descend into it); to git it is a file like any other
+        # symbolic link.
+        for name in [
+            d
+            for d in dirnames
+            if os.path.islink(os.path.join(dirpath, d))  # type: ignore[call-overload]
+        ]:
+            dirnames.remove(name)
+            filenames.append(name)
+
         # Skip .git and below.
         if ".git" in dirnames:
             dirnames.remove(".git")
@@ -4145,7 +4161,7 @@ def get_untracked_paths(
                 entry_path = os.path.join(dir_path, entry)
                 rel_entry = os.path.join(base_rel_path, entry)
 
-                if os.path.isfile(entry_path):
+                if os.path.islink(entry_path) or os.path.isfile(entry_path):
                     if ignore_manager.is_ignored(rel_entry) is not True:
                         return True
                 elif os.path.isdir(entry_path):
